@@ -75,7 +75,43 @@ MacroLine(q) ==
     PrintT(<<"MACRO", ToJson([toks |-> q, parts |-> t, norm |-> Norm(t),
                               msg |-> Render(t, MacroProps), raw |-> Render(t, <<>>)])>>)
 
+\* ---- format flags of macro holes: `[{#[emit::fmt("FLAGS")] v}]` with v an integer, a float or a
+\* string.  kind "pad": FLAGS is [fill]align width only and the expected text is the specification's
+\* (Pad of the Display text of the value; the fill may be any character, also one that is format-spec
+\* syntax such as `:`, `0`, `#`, `?`); kind "std": sign / `0` / precision / `?` / `x?` flags, whose
+\* expected text is std's `format!("{:FLAGS}", v)` of the same typed value, computed at the call site
+\* (std is trusted; Value offers Display and Debug only, so type characters like `x`, `b`, `e` alone
+\* do not compile and are outside the family).
+FF(flags, kind, fill, align, width) == [flags |-> flags, kind |-> kind, fill |-> fill, align |-> align, width |-> width]
+FmtFlagSet == {
+    FF(":>4", "pad", ":", ">", 4), FF(":<6", "pad", ":", "<", 6), FF(":^5", "pad", ":", "^", 5),
+    FF("*^7", "pad", "*", "^", 7), FF("0>5", "pad", "0", ">", 5), FF("#>3", "pad", "#", ">", 3),
+    FF("?<4", "pad", "?", "<", 4), FF(" >3", "pad", " ", ">", 3), FF("é^4", "pad", "é", "^", 4),
+    FF(">3", "pad", " ", ">", 3), FF("<3", "pad", " ", "<", 3), FF("^6", "pad", " ", "^", 6),
+    FF(".^1", "pad", ".", "^", 1), FF("+<5", "pad", "+", "<", 5), FF("x>6", "pad", "x", ">", 6),
+    FF(">8.3", "std", "", "", 0), FF("08.2", "std", "", "", 0), FF("+", "std", "", "", 0),
+    FF("#?", "std", "", "", 0), FF("?", "std", "", "", 0), FF("05", "std", "", "", 0),
+    FF(".0", "std", "", "", 0), FF("^9.1", "std", "", "", 0), FF("+08.3", "std", "", "", 0),
+    FF("x?", "std", "", "", 0), FF("#x?", "std", "", "", 0), FF(":>+6", "std", "", "", 0),
+    FF(".3", "std", "", "", 0), FF(":>08.1", "std", "", "", 0)}
+FV(ty, src, text) == [ty |-> ty, src |-> src, text |-> text]
+FmtValues == {FV("i", "42", <<"4", "2">>), FV("i", "-7", <<"-", "7">>),
+              FV("f", "3.14159", <<"3", ".", "1", "4", "1", "5", "9">>), FV("f", "-0.5", <<"-", "0", ".", "5">>),
+              FV("s", "ab", <<"a", "b">>), FV("s", "é", <<"é">>)}
+Rep(c, n) == [i \in 1..n |-> c]
+Pad(text, fill, align, width) ==
+    IF Len(text) >= width THEN text
+    ELSE LET k == width - Len(text) IN
+         IF align = ">" THEN Rep(fill, k) \o text
+         ELSE IF align = "<" THEN text \o Rep(fill, k)
+         ELSE Rep(fill, k \div 2) \o text \o Rep(fill, k - k \div 2)
+FmtSiteLine(ff, fv) ==
+    PrintT(<<"FMTSITE", ToJson([flags |-> ff.flags, kind |-> ff.kind, ty |-> fv.ty, src |-> fv.src,
+        raw |-> "[{v}]",
+        expect |-> IF ff.kind = "pad" THEN "[" \o ConcatS(Pad(fv.text, ff.fill, ff.align, ff.width)) \o "]" ELSE ""])>>)
+
 ASSUME \A q \in MacroLits : MacroLine(q)
+ASSUME \A ff \in FmtFlagSet, fv \in FmtValues : FmtSiteLine(ff, fv)
 ASSUME PrintT(<<"PROPS", ToJson(PropSeq)>>)
 ASSUME \A t \in RenderDomain : TemplateLine(t)
 =============================================================================
